@@ -115,6 +115,16 @@ pub fn check_any_string(r: &Report, s: &str, origin: &str) -> bool {
         (a, per)
     });
     let case = || json!({"string": s, "origin": origin});
+    // the blech32 segwit decoder is an observation point of its own: whatever it accepts is a blinded segwit payload
+    // (33-byte key + program) of version 0..16 with a standard program length
+    if let Ok(Ok(seg)) = guard(|| elements::blech32::decode::SegwitHrpstring::new(s).map(|h| (h.witness_version().to_u8(), h.byte_iter().count()))) {
+        r.trans(1);
+        let (ver, n) = seg;
+        let prog = n as i64 - 33;
+        if ver > 16 || prog < 2 || prog > 40 || (ver == 0 && prog != 20 && prog != 32) {
+            r.violation(format!("blech32-decoder-accepts-nonstandard/{}", origin), case(), format!("SegwitHrpstring::new accepts witness version {} with a {}-byte payload", ver, n));
+        }
+    }
     match res {
         Err(p) => {
             r.violation(format!("panic@{}", crate::engine::panic_site(&p)), case(), p);
